@@ -38,9 +38,21 @@ let any = ZA.of_int (-8)
 let rest = ZA.of_int (-10)
 let nonzero = ZA.of_int (-11)
 
+(* -13: what remains is A ++ B, A strictly increasing and inside the set after the marker, B a permutation of A *)
+let half_ok (restl : ZA.t list) (set : ZA.t list) : bool =
+  let len = List.length restl in
+  if len mod 2 <> 0 then false else begin
+    let n = len / 2 in
+    let a = List.filteri (fun i _ -> i < n) restl and b = List.filteri (fun i _ -> i >= n) restl in
+    let rec inc = function x :: (y :: _ as r) -> ZA.lt x y && inc r | _ -> true in
+    inc a && List.for_all (fun x -> List.exists (ZA.equal x) set) a
+    && List.equal ZA.equal (List.sort ZA.compare b) a
+  end
+
 let rec spec_match' impl sp =
   match impl, sp with
   | _, [y] when ZA.equal y rest -> true
+  | _, y :: set when ZA.equal y (ZA.of_int (-13)) -> half_ok impl set
   | [], [] -> true
   | x :: a, y :: b -> (ZA.equal y wild || ZA.equal x y) && spec_match' a b
   | _, _ -> false
